@@ -12,7 +12,14 @@ PROP = "C10"
 
 
 def contracts():
-    return [_c08.update_ref_contract(False), _c08.update_ref_contract(True)]
+    from contracts import c02 as _c02
+    # synchronous half of "assigning a plain value while a result is pending cancels that reference":
+    # the setter calls the unlink step for every accepted plain value of a linked parameter unless
+    # that very name is being synced — not depending on other names being synced or on a trigger
+    sets = _c02.all_set_contracts(["C10/"])
+    for c in sets:
+        c.prop = PROP
+    return [_c08.update_ref_contract(False), _c08.update_ref_contract(True)] + sets
 
 
 ASSUMPTIONS = _c08.ASSUMPTIONS + ["async functions are out of reach: yield-point invariants not discharged"]
